@@ -1206,13 +1206,23 @@ class Tensor:
         for var in tensor_vars:
             var._ops.add(ref_f)
 
-        tensor_out = cls(
-            op_out,
-            constant=constant,
-            copy=False,
-            _creator=f,
-            _base=base,
-        )
+        try:
+            tensor_out = cls(
+                op_out,
+                constant=constant,
+                copy=False,
+                _creator=f,
+                _base=base,
+            )
+        except Exception as e:
+            # the op's output cannot be held by a tensor (e.g. `dtype=complex`,
+            # or an integer-valued output with `constant=False`): the op must not
+            # linger among its inputs' ops, nor keep their memory locked
+            for var in tensor_vars:
+                var._ops.discard(ref_f)
+            if _mem.MEM_GUARD:
+                _mem.release_writeability_lock_on_op(_uniques_bases_then_arrs)
+            raise e
 
         if parent_var is not None:
             parent_var._view_children.append(tensor_out)
